@@ -515,6 +515,8 @@ class CallsMixin:
         r.uninit = a.uninit
         r.nonneg = a.nonneg
         r.orth = self.orth_reshape(a, new)
+        if r.orth is not None and len(a.dims) == 1 and r.src is None:
+            r.src = a.src           # the same spectrum, as a column / row
         r.lay = self.lay_reshape(a, new, order, node)
         r.delta = self.delta_reshape(a, new, order)
         r.cnt = a.cnt
@@ -569,6 +571,10 @@ class CallsMixin:
         if a.orth in ('weighted', 'half', 'weighted3', 'half3'):
             base = a.orth.rstrip('3')
             return base + '3' if len(new) == 3 else base
+        if len(a.dims) == 1 and a.orth in ('sigma', 'halfvec', 'eig', 'sing',
+                                           'invsing') and len(new) == 2 and \
+                any(x is not None and x.as_int() == 1 for x in new):
+            return a.orth           # the same vector as a column / row
         return None
 
     def lay_reshape(self, a, new, order, node):
@@ -1212,6 +1218,10 @@ class CallsMixin:
                     tot = tot + p
                 return INT(tot)
             return INT()
+        if a.k == 'arr' and a.dt == 'b' and isinstance(a.rel, tuple) and \
+                a.rel[0] == 'prefix' and \
+                self.kwarg(pos, kw, 1, 'axis') is None:
+            return INT(a.rel[1], nonneg=True)
         return self._mark_sum(self._red(pos, kw, node, env), a,
                               self.kwarg(pos, kw, 1, 'axis'))
 
@@ -1262,6 +1272,9 @@ class CallsMixin:
     def elementwise(self, name, pos, kw, node, env):
         v = pos[0] if pos else TOP()
         short = name.split('.')[-1]
+        if short == 'square' and v.k in ('arr', 'int', 'float'):
+            # np.square(x) is x ** 2 (units, ledger, typestates, U-square)
+            return self.binop(ast.Pow(), v, INT(2), node, env=env)
         if v.k in ('int', 'float', 'bool'):
             r = FLOAT(taint=v.taint)
             if short == 'sign':
@@ -1363,6 +1376,9 @@ class CallsMixin:
                 # prefix sums of non-negative terms (see G-cancel)
                 r.src = ('cumsum', id(r))
                 r.nonneg = True
+                # running sums taken from the END of the original vector?
+                r.rel = ('cumsum-rev',) if isinstance(a.rel, tuple) and \
+                    a.rel[0] in ('rev', 'sq-rev') else ('cumsum-fwd',)
             if a.items is not None and all(x.p is not None for x in a.items):
                 acc = Poly.const(0)
                 its = []
@@ -1495,12 +1511,45 @@ class CallsMixin:
         if len(pos) == 1:
             a = self.as_arr(pos[0])
             nd = len(a.dims) if a.dims is not None else 1
+            if isinstance(a.rel, tuple) and a.rel[0] == 'prefix' and nd == 1:
+                # positions of a True-prefix: 0, 1, ..., D - 1
+                D = a.rel[1]
+                return TUPLE([ARR((D,), 'i', idx='where',
+                                  rel=('arange', D), nonneg=True)])
             n = self.I.fresh('where', node)
             return TUPLE([ARR((n,), 'i', idx='where') for _ in range(nd)])
+        a = self.as_arr(pos[0])
+        if isinstance(a.rel, tuple) and a.rel[0] == 'negmask' and \
+                pos[1].has_const() and pos[1].c == 0 and \
+                pos[2] is a.rel[1]:
+            # where(x < 0, 0, x): x clamped at zero (as np.maximum(x, 0))
+            x = pos[2]
+            return x.copy(org=frozenset(), nonneg=True,
+                          orth=x.orth if x.orth == 'eig' else None)
         a, b, c = (self.as_arr(p) for p in pos[:3])
         d = self.broadcast(a.dims, b.dims, node)
         d = self.broadcast(d, c.dims, node)
         return ARR(d, promote_dt(b, c), taint=b.taint | c.taint)
+
+    def n_flatnonzero(self, pos, kw, node, env):
+        a = self.as_arr(pos[0]) if pos else ARR(None)
+        if isinstance(a.rel, tuple) and a.rel[0] == 'prefix':
+            D = a.rel[1]
+            return ARR((D,), 'i', idx='where', rel=('arange', D),
+                       nonneg=True)
+        return ARR((self.I.fresh('where', node),), 'i', idx='where')
+
+    def n_count_nonzero(self, pos, kw, node, env):
+        a = self.as_arr(pos[0]) if pos else ARR(None)
+        if self.kwarg(pos, kw, 1, 'axis') is not None:
+            return self.reduce(a, self.kwarg(pos, kw, 1, 'axis'), node,
+                               dt='i')
+        if isinstance(a.rel, tuple) and a.rel[0] == 'prefix':
+            r = INT(a.rel[1])
+        else:
+            r = INT(self.I.fresh('count', node))
+        r.nonneg = True
+        return r
 
     def n_unique(self, pos, kw, node, env):
         a = self.as_arr(pos[0])
